@@ -330,7 +330,7 @@ def encode_real(data):
         mantissa = int(mantissa * 2 ** 53)
         lowest_set_bit = compiler.lowest_set_bit(mantissa)
         mantissa >>= lowest_set_bit
-        mantissa |= (0x80 << (8 * ((mantissa.bit_length() // 8) + 1)))
+        mantissa |= (0x80 << (8 * ((mantissa.bit_length() + 7) // 8)))
         mantissa = binascii.unhexlify(hex(mantissa)[4:].rstrip('L'))
         exponent = (52 - lowest_set_bit - exponent)
 
